@@ -291,8 +291,9 @@ func checkPool(c *vsched.RunCtx, prop string) {
 	drivers := map[string]string{
 		"C02": "pick-done,refresh-race",
 		"C03": "grow-race",
-		"C05": "grow-race,pick-done,refresh-race,rr-bind,rr-cancel,fallback-pick,resolve-pick,bind-unbind",
-		"C06": "grow-race,pick-done,refresh-race,rr-bind,rr-cancel,fallback-pick,resolve-pick,bind-unbind",
+		"C05": "grow-race,pick-done,refresh-race,rr-bind,rr-cancel,fallback-pick,fallback-two-pickers,resolve-pick,bind-unbind",
+		"C06": "grow-race,pick-done,refresh-race,rr-bind,rr-cancel,fallback-pick,fallback-two-pickers,resolve-pick,bind-unbind",
+		"C08": "fallback-pick,fallback-two-pickers",
 		"C07": "refresh-race",
 		"C09": "rr-bind,rr-cancel",
 		"C20": "resolve-pick",
